@@ -22,7 +22,7 @@ fi
 # hash of everything that goes into the simulator binary
 treehash=$( (cd $REPO && find . -path ./.git -prune -o \( -name '*.go' -o -name go.mod -o -name go.sum \) -type f -print | sort | xargs sha256sum; cd $VERIF/sim && find . -name '*.go' | sort | xargs sha256sum; echo $toolhash) | sha256sum | cut -c1-20)
 BIN=$CACHE/$treehash/sim.test
-if [ -x $BIN ]; then echo $BIN; exit 0; fi
+if [ -x $BIN ]; then touch $CACHE/$treehash; echo $BIN; exit 0; fi
 
 S=$(mktemp -d ${TMPDIR:-/tmp}/verif-build.XXXXXX) || fail "mktemp"
 trap 'rm -rf $S' EXIT
@@ -38,6 +38,9 @@ mkdir -p $S/sim && cp $VERIF/sim/*.go $S/sim/ && cp $REPO/go.sum $S/sim/go.sum
 mkdir -p $CACHE/$treehash
 (cd $S/sim && go1.26.8 test -tags verif -trimpath -c -o $BIN . ) >&2 || { rm -rf $CACHE/$treehash; fail "simulator does not build against this tree"; }
 cp $S/instrument.log $CACHE/$treehash/instrument.log
-# keep the seven newest builds
-ls -1dt $CACHE/*/ 2>/dev/null | grep -v "/bin/" | tail -n +8 | xargs -r rm -rf
+# evict old builds: never one used in the last six hours (a long check may still
+# start workers from it), and always keep the twelve most recently used
+ls -1dt $CACHE/*/ 2>/dev/null | grep -v "/bin/" | tail -n +13 | while read d; do
+  if [ -n "$(find "$d" -maxdepth 0 -mmin +360 2>/dev/null)" ]; then rm -rf "$d"; fi
+done
 echo $BIN
